@@ -27,7 +27,7 @@ class World:
 
     def assume(s, c): s.st.pc.append(c)
 
-    def mk_grid(s, name, n=None, abstract=False, increasing=True, lo=2, hi=None):
+    def mk_grid(s, name, n=None, abstract=False, increasing=True, lo=2, hi=None, concrete_pts=False):
         """A Grid's heap part: the vector object {begin, finish, end_of_storage}, the data array and the control block.
         n: number of points (symbolic by default, lo <= n <= hi). abstract=True: no data object exists - any dereference of
         grid data is reported - which allows n up to vector<double>::max_size() = 2^60 - 1."""
@@ -44,8 +44,13 @@ class World:
         else:
             data = st.alloc(8 * s.nmax, name + '_data', 'input'); data.lsize = 8 * nv; dbase = bv(data.base)
             for k in range(s.nmax):
-                p = s.var('%s_p%d' % (name, k)); pts.append(p); ex.poke(st, data, 8 * k, p)
-            if increasing:
+                if concrete_pts:   # the points 0.5, 2, 3.5, ... as IEEE bit patterns (long supports, where only x and the coefficients stay symbolic)
+                    import struct
+                    p = bv(struct.unpack('<Q', struct.pack('<d', 0.5 + 1.5 * k))[0]); s.vars['%s_p%d' % (name, k)] = p
+                else:
+                    p = s.var('%s_p%d' % (name, k))
+                pts.append(p); ex.poke(st, data, 8 * k, p)
+            if increasing and not concrete_pts:
                 for k in range(s.nmax - 1):
                     s.assume(z3.Implies(z3.UGT(nv, k + 1), z3.fpLT(z3.fpBVToFP(pts[k], z3.Float64()), z3.fpBVToFP(pts[k + 1], z3.Float64()))))
         ex.poke(st, vec, 0, dbase); ex.poke(st, vec, 8, dbase + 8 * nv); ex.poke(st, vec, 16, dbase + 8 * nv)
